@@ -424,7 +424,7 @@ def evaluate(ctx, case):
         d0 = os.path.dirname(b.c_path)
         p = case.plan
         p.tpaths = {('s%d' % i): os.path.join(d0[:-1] + str(i), scs[i].name + '.tables') for i in range(n)}
-        r = common.run_one(b.exe, p.text(), timeout=120)
+        r = common.run_one(b.exe, p.text(), timeout=ctx.run_timeout)
         st = sb.status_class(r)
         if st in ('sanitizer', 'crash', 'hang'):
             return [model.Viol(st, -1, sb.san_summary(r.stderr))], {'main': r}
@@ -448,7 +448,7 @@ def evaluate(ctx, case):
         if not problems and (len(sets) != 1 or sets[0]['name'] != want_name):
             problems.append('expected exactly one set named %s' % want_name)
         return ([model.Viol('format', -1, '; '.join(problems)[:500])] if problems else []), {}
-    r = common.run_one(b.exe, p.text(), timeout=120)
+    r = common.run_one(b.exe, p.text(), timeout=ctx.run_timeout)
     out, detail, leak = load_outcome(r)
     runs = {'main': r}
     viols = []
@@ -478,7 +478,7 @@ def evaluate(ctx, case):
         base.tfiles = []
         for it in base.insts:
             it.top = [op for op in it.top if op.name not in ('TABLES_LOAD', 'TABLES_DESTROY')]
-        a = common.run_one(btw.exe, base.text(), timeout=120)
+        a = common.run_one(btw.exe, base.text(), timeout=ctx.run_timeout)
         runs['twin'] = a
         if sb.status_class(a) is None and toks(a) != toks(r):
             viols.append(model.Viol('roundtrip', -1, 'scanner with loaded tables differs from the in-code twin'))
